@@ -29,6 +29,11 @@ pub struct GenOpts {
     pub addr_base: u64,
     /// one function in three gets blocks whose instruction indices are not dense
     pub sparse_indices: bool,
+    /// one function in three numbers its blocks in a random order (the entry is then not block 0 and blocks
+    /// unreachable from it can have lower indices than reachable ones)
+    pub permute_blocks: bool,
+    /// the entry block may be empty (one function in ten)
+    pub empty_entry: bool,
 }
 
 impl Default for GenOpts {
@@ -36,8 +41,8 @@ impl Default for GenOpts {
         GenOpts {
             max_blocks: 8,
             max_instrs: 5,
-            widths: vec![1, 8, 16, 32, 32, 64],
-            n_scalars: 6,
+            widths: vec![1, 8, 16, 32, 32, 64, 128],
+            n_scalars: 7,
             all_reachable: true,
             def_before_use: false,
             intrinsics: false,
@@ -52,6 +57,8 @@ impl Default for GenOpts {
             expr_depth: 2,
             addr_base: 0x1000,
             sparse_indices: true,
+            permute_blocks: true,
+            empty_entry: true,
         }
     }
 }
@@ -245,15 +252,23 @@ pub fn generate(rng: &mut Rng, o: &GenOpts) -> Gen {
     for _ in 0..total {
         cfg.new_block().unwrap();
     }
+    // logical block number (0 = entry, n.. = unreachable ones) -> index of the block in the graph
+    let mut perm: Vec<usize> = (0..total).collect();
+    if o.permute_blocks && rng.chance(1, 3) {
+        for i in (1..total).rev() {
+            let j = rng.usize(i + 1);
+            perm.swap(i, j);
+        }
+    }
     // ---- instructions
     let sparse = o.sparse_indices && rng.chance(1, 3);
     let mut next_addr: u64 = o.addr_base;
     let addr_base = next_addr;
     let mut branch_targets_needed: Vec<(usize, usize)> = Vec::new(); // (block, instr index) of Branch ops to patch
     for bi in 0..total {
-        let empty = o.empty_blocks && bi != 0 && rng.chance(1, 6);
+        let empty = o.empty_blocks && ((bi != 0 && rng.chance(1, 6)) || (bi == 0 && o.empty_entry && !o.def_before_use && rng.chance(1, 10)));
         let mut ninstr = if empty { 0 } else { 1 + rng.usize(o.max_instrs) };
-        let block = cfg.block_mut(bi).unwrap();
+        let block = cfg.block_mut(perm[bi]).unwrap();
         if bi == 0 && o.def_before_use {
             // define every scalar first
             for i in 0..pool.len() {
@@ -447,7 +462,7 @@ pub fn generate(rng: &mut Rng, o: &GenOpts) -> Gen {
             }
             _ => Expression::Add(Box::new(cst(t.wrapping_sub(8), 64)), Box::new(cst(8, 64))),
         };
-        *cfg.block_mut(bi).unwrap().instruction_mut(idx).unwrap().operation_mut() = il::Operation::branch(e);
+        *cfg.block_mut(perm[bi]).unwrap().instruction_mut(idx).unwrap().operation_mut() = il::Operation::branch(e);
         // a block ending in an indirect branch has no out-edges
         outs[bi].clear();
     }
@@ -459,16 +474,16 @@ pub fn generate(rng: &mut Rng, o: &GenOpts) -> Gen {
             1 => {
                 if o.broken_guards && rng.chance(1, 3) {
                     let c = gen_cond(rng, &pool);
-                    cfg.conditional_edge(h, ts[0], c).unwrap();
+                    cfg.conditional_edge(perm[h], perm[ts[0]], c).unwrap();
                 } else {
-                    cfg.unconditional_edge(h, ts[0]).unwrap();
+                    cfg.unconditional_edge(perm[h], perm[ts[0]]).unwrap();
                 }
             }
             2 => {
                 let c = gen_cond(rng, &pool);
                 let nc = if o.broken_guards && rng.chance(1, 3) { gen_cond(rng, &pool) } else { not1(&c) };
-                cfg.conditional_edge(h, ts[0], c).unwrap();
-                cfg.conditional_edge(h, ts[1], nc).unwrap();
+                cfg.conditional_edge(perm[h], perm[ts[0]], c).unwrap();
+                cfg.conditional_edge(perm[h], perm[ts[1]], nc).unwrap();
             }
             _ => {
                 let wide: Vec<&Scalar> = pool.iter().filter(|s| s.bits() >= 2).collect();
@@ -477,23 +492,23 @@ pub fn generate(rng: &mut Rng, o: &GenOpts) -> Gen {
                 if w == 1 {
                     // 1-bit scalar: use a 2-way split and drop the third edge
                     let c = Expression::Scalar(s);
-                    cfg.conditional_edge(h, ts[0], c.clone()).unwrap();
-                    cfg.conditional_edge(h, ts[1], not1(&c)).unwrap();
+                    cfg.conditional_edge(perm[h], perm[ts[0]], c.clone()).unwrap();
+                    cfg.conditional_edge(perm[h], perm[ts[1]], not1(&c)).unwrap();
                 } else {
                     let k = Expression::Constant(Constant::new_big(rng.corner_big(w), w));
                     let x = Expression::Scalar(s);
-                    cfg.conditional_edge(h, ts[0], Expression::Cmpltu(Box::new(x.clone()), Box::new(k.clone()))).unwrap();
-                    cfg.conditional_edge(h, ts[1], Expression::Cmpeq(Box::new(x.clone()), Box::new(k.clone()))).unwrap();
-                    cfg.conditional_edge(h, ts[2], Expression::Cmpltu(Box::new(k), Box::new(x))).unwrap();
+                    cfg.conditional_edge(perm[h], perm[ts[0]], Expression::Cmpltu(Box::new(x.clone()), Box::new(k.clone()))).unwrap();
+                    cfg.conditional_edge(perm[h], perm[ts[1]], Expression::Cmpeq(Box::new(x.clone()), Box::new(k.clone()))).unwrap();
+                    cfg.conditional_edge(perm[h], perm[ts[2]], Expression::Cmpltu(Box::new(k), Box::new(x))).unwrap();
                 }
             }
         }
     }
-    cfg.set_entry(0).unwrap();
+    cfg.set_entry(perm[0]).unwrap();
     // exit: a reachable block without successors if any, else the last block
-    let exits: Vec<usize> = (0..n).filter(|b| cfg.successor_indices(*b).unwrap().is_empty()).collect();
+    let exits: Vec<usize> = (0..n).filter(|b| cfg.successor_indices(perm[*b]).unwrap().is_empty()).collect();
     let exit = if exits.is_empty() { n - 1 } else { exits[rng.usize(exits.len())] };
-    cfg.set_exit(exit).unwrap();
+    cfg.set_exit(perm[exit]).unwrap();
     Gen { f: Function::new(addr_base, cfg), pool, addr_base }
 }
 
